@@ -2,8 +2,28 @@
 From Coq Require Import NArith.
 Open Scope N_scope.
 
+Definition array_push_inline_op : option N := Some 1.
+Definition array_push_inline_rhs : option N := Some 12.
+Definition heap_sizes_validity_by_selected_row : option N := Some 1.
 Definition inline_buffer_len : option N := Some 12.
 Definition is_inline_literal : option N := Some 12.
 Definition is_reference_literal : option N := Some 12.
 Definition max_inline_len : option N := Some 12.
 Definition row_index_width : option N := Some 4.
+Definition row_writer_uses_view_is_inline : option N := Some 3.
+Definition sp_is_inline_op : option N := Some 1.
+Definition sp_is_inline_rhs : option N := Some 12.
+Definition sp_is_reference_op : option N := Some 2.
+Definition sp_is_reference_rhs : option N := Some 12.
+Definition sp_new_inline_assert_op : option N := Some 1.
+Definition sp_new_inline_assert_rhs : option N := Some 12.
+Definition sp_new_reference_assert_op : option N := Some 2.
+Definition sp_new_reference_assert_rhs : option N := Some 12.
+Definition sv_is_inline_op : option N := Some 1.
+Definition sv_is_inline_rhs : option N := Some 12.
+Definition sv_is_reference_op : option N := Some 2.
+Definition sv_is_reference_rhs : option N := Some 12.
+Definition sv_new_inline_assert_op : option N := Some 1.
+Definition sv_new_inline_assert_rhs : option N := Some 12.
+Definition sv_new_reference_assert_op : option N := Some 2.
+Definition sv_new_reference_assert_rhs : option N := Some 12.
